@@ -472,7 +472,7 @@ theorem aws_adv (js : Rat) : ∀ (b : IBox) (adv : Rat),
       exact awsL_adv js kids adv
     · simp only [if_true]
       exact awsR_adv js kids adv
-  | .atom x f, adv => by
+  | .atom x f kids, adv => by
     unfold addWordSpacing countSpaces; grind
 theorem awsL_adv (js : Rat) : ∀ (l : List IBox) (adv : Rat),
     (addWordSpacingL js l adv).2 = adv + js * (countSpacesL l : Rat)
@@ -506,7 +506,7 @@ end
 def IBox.width : IBox → Rat
   | .text _ w _ => w
   | .inl _ w _ _ => w
-  | .atom _ _ => 0
+  | .atom _ _ _ => 0
 
 /-- **justify**: a line with at least one expandable space becomes exactly `extra` wider:
 `nb_spaces · (extra / nb_spaces) = extra`. -/
